@@ -62,4 +62,10 @@ fn main() {
         Some(p) => std::fs::write(p, text).expect("write result"),
         None => println!("{}", text),
     }
+    // under `cargo miri run -Zmiri-many-seeds` every seed is a separate run that
+    // overwrites the result file: make a run with violations fail so that the
+    // seed loop stops there and its result file is the one that is kept
+    if run.opts.variant == "miri" && run.violation_count() > 0 {
+        std::process::exit(3);
+    }
 }
